@@ -274,6 +274,8 @@ def run(ctx):
     nsys = 0
     for kind, (A, j, x0v) in systems(ctx, rng, q):
         nsys += 1
+        if nsys % 4 == 0:
+            env[0].clear_caches()        # hundreds of compiled while-loops exhaust the JIT's executable memory mappings otherwise (thorough tier)
         cfgs = CONFIGS if not q else [CONFIGS[(nsys + k) % len(CONFIGS)] for k in range(3)]
         for (mi, hres, habs, rz, hx0) in cfgs:
             x0 = x0v if hx0 else None
